@@ -96,6 +96,68 @@ pub fn build_mmap(l: &Layout) -> Result<GuestMemoryMmap<()>, String> {
     GuestMemoryMmap::<()>::from_ranges(&ranges).map_err(|e| format!("{:?}", e))
 }
 
+/// Builds the same memory through a history of map updates instead of one constructor call:
+/// route 0 = `from_ranges`; route 1 = a map of the last region, the others inserted one by one
+/// from the back; route 2 = built together with extra one-byte regions below and above the
+/// layout (where the address space has room), which are then removed again, lowest first.
+/// The resulting map must be indistinguishable from route 0.
+pub fn build_mmap_route(l: &Layout, route: usize) -> Result<GuestMemoryMmap<()>, String> {
+    if route == 0 || l.regs.is_empty() {
+        return build_mmap(l);
+    }
+    let mk = |s: u64, n: u64| GuestRegionMmap::<()>::from_range(GuestAddress(s), n as usize, None).map_err(|e| format!("{:?}", e));
+    if route == 1 {
+        let (s, n) = *l.regs.last().unwrap();
+        let mut m = GuestMemoryMmap::from_regions(vec![mk(s, n)?]).map_err(|e| format!("{:?}", e))?;
+        for (s, n) in l.regs.iter().rev().skip(1) {
+            m = m.insert_region(std::sync::Arc::new(mk(*s, *n)?)).map_err(|e| format!("{:?}", e))?;
+        }
+        return Ok(m);
+    }
+    let first = l.regs[0].0;
+    let (ls, ln) = *l.regs.last().unwrap();
+    let mut extra: Vec<u64> = Vec::new();
+    if first >= 0x2000 {
+        extra.push(first - 0x1800);
+        extra.push(first - 0x1000);
+    }
+    if let Some(above) = (ls + (ln - 1)).checked_add(0x1001) {
+        extra.push(above);
+    }
+    let mut all: Vec<(u64, u64)> = l.regs.clone();
+    all.extend(extra.iter().map(|e| (*e, 1u64)));
+    all.sort();
+    let mut regions = Vec::new();
+    for (s, n) in &all {
+        regions.push(mk(*s, *n)?);
+    }
+    let mut m = GuestMemoryMmap::from_regions(regions).map_err(|e| format!("{:?}", e))?;
+    for e in extra {
+        m = m.remove_region(GuestAddress(e), 1).map_err(|e| format!("{:?}", e))?.0;
+    }
+    Ok(m)
+}
+
+/// `build_mmap_route`, reporting a refusal: when the plain constructor accepts the layout, a
+/// sequence of valid insertions / removals that leads to it may not be refused.
+pub fn build_mmap_route_checked(ctx: &crate::report::Ctx, prop: &str, l: &Layout, route: usize) -> Option<GuestMemoryMmap<()>> {
+    match build_mmap_route(l, route) {
+        Ok(m) => Some(m),
+        Err(e) => {
+            if route != 0 && build_mmap(l).is_ok() {
+                ctx.fail(
+                    &format!("{}/map-built-by-updates/valid-update-refused", prop),
+                    &format!("layout {} built through construction route {} (1 = insertions from the back, 2+ = extra regions removed again): {}", l.describe(), route, e),
+                    serde_json::json!({"layout": l.regs, "route": route}),
+                );
+            } else {
+                ctx.machinery(&format!("cannot build {} (route {}): {}", l.describe(), route, e));
+            }
+            None
+        }
+    }
+}
+
 /// Builds a file-backed guest memory (one temp file, regions at consecutive file offsets rounded
 /// to pages). Returns the memory and the file with each region's file offset.
 pub fn build_mmap_file(l: &Layout) -> Result<(GuestMemoryMmap<()>, std::fs::File, Vec<u64>), String> {
